@@ -226,9 +226,13 @@ func judgeWalk(r *rep.Reporter, kind, form string, paginating bool, live []strin
 
 // c04SelfConsistent walks the listing with every page size and compares the
 // concatenation with what the same server answers without pagination.
-func c04SelfConsistent(r *rep.Reporter, s *drv.Server, kind, bucket string, live []string, d string, ctx func() interface{}) {
-	for _, p := range []string{"", "a", "b", "a" + d} {
-		if d != "" && strings.HasPrefix(p, d) {
+func c04SelfConsistent(r *rep.Reporter, s *drv.Server, kind, bucket string, live []string, d string, ctx func() interface{}, only ...string) {
+	ps := []string{"", "a", "b", "a" + d}
+	if len(only) > 0 {
+		ps = only
+	}
+	for _, p := range ps {
+		if len(only) == 0 && d != "" && strings.HasPrefix(p, d) {
 			continue
 		}
 		for _, v2 := range []bool{false, true} {
@@ -289,7 +293,7 @@ type c04Set struct {
 
 func runC04(c *Ctx) {
 	r := c.R
-	r.SetRule("content sets (structured + random, 1..8 live keys over {a,b,/}, some with delete-marked keys) x every prefix up to length 2 (+ rich ones) x delimiters {none,'/','b'} x every max-keys 1..n+1 x V1/V2, plus marker/start-after values present, absent, inside a common prefix, before the first and beyond the last key; content sets in which a key ends with the delimiter (outside C03's key domain) are walked with every page size and compared with the server's own unpaginated answer; mem must paginate exactly, bolt/fs may answer with the complete listing (or 501 with the unimplemented-page option); distinct = (backend, content set, prefix, delimiter, max-keys, form, marker)")
+	r.SetRule("content sets (structured + random, 1..8 live keys over {a,b,/}, some with delete-marked keys) x every prefix up to length 2 (+ rich ones) x delimiters {none,'/','b'} x every max-keys 1..n+1 x V1/V2, plus marker/start-after values present, absent, inside a common prefix, before the first and beyond the last key; content sets in which a key ends with the delimiter (outside C03's key domain) are walked with every page size and compared with the server's own unpaginated answer, and so are prefixes that begin with the delimiter; mem must paginate exactly, bolt/fs may answer with the complete listing (or 501 with the unimplemented-page option); distinct = (backend, content set, prefix, delimiter, max-keys, form, marker)")
 	r.Exhaustive(true)
 	var baseKeys []string
 	for _, k := range stringsOver("ab/", 1, 3) {
@@ -452,6 +456,13 @@ func runC04(c *Ctx) {
 			}
 			for _, p := range prefixes {
 				if (d != "" && strings.HasPrefix(p, d)) || strings.HasPrefix(p, "/") {
+					// a prefix that begins with the delimiter is outside C03's domain (the matcher trims
+					// it), but whatever the server makes of it, its pages must add up to its own
+					// unpaginated answer
+					if d != "" && strings.HasPrefix(p, d) && j.t.paginating && !j.t.unimpl {
+						r.Count("walks_with_prefixes_that_begin_with_the_delimiter", 1)
+						c04SelfConsistent(r, s, j.t.kind, bucket, live, d, ctx, p)
+					}
 					continue
 				}
 				fk, fp := model.ListOracle(live, p, d)
